@@ -60,17 +60,18 @@ theorem triple_amp_decided : evalK rules ws false 80 .nonAtomic
     (.choice (.rule .r_html_expression_triple_bracket_legacy) (.rule .r_html_expression_triple_bracket)) 0 ['{', '{', '&'] = some .fail :=
   KRes.isFail_eq (by decide)
 
-theorem legacy_def : rules .r_html_expression_triple_bracket_legacy = ⟨.silent,
+/-- the bodies of the unescaped forms, silent helper rules (if any) unfolded -/
+theorem legacy_nf : unfoldS rules keepSilent 8 (rules .r_html_expression_triple_bracket_legacy).body =
     .seq (.seq (.seq (.seq (.str ['{', '{', '{']) (.opt (.rule .r_leading_tilde_to_omit_whitespace)))
       (.choice (.seq (.rule .r_identifier) (.repOnce (.choice (.rule .r_hash) (.rule .r_helper_parameter)))) (.rule .r_name)))
-      (.opt (.rule .r_trailing_tilde_to_omit_whitespace))) (.str ['}', '}', '}'])⟩ := rfl
+      (.opt (.rule .r_trailing_tilde_to_omit_whitespace))) (.str ['}', '}', '}']) := rfl
 
-theorem amp_def : rules .r_amp_expression = ⟨.silent,
+theorem amp_nf : unfoldS rules keepSilent 8 (rules .r_amp_expression).body =
     .seq (.seq (.seq (.seq (.seq (.str ['{', '{']) (.opt (.rule .r_leading_tilde_to_omit_whitespace))) (.str ['&'])) (.rule .r_name))
-      (.opt (.rule .r_trailing_tilde_to_omit_whitespace))) (.str ['}', '}'])⟩ := rfl
+      (.opt (.rule .r_trailing_tilde_to_omit_whitespace))) (.str ['}', '}']) := rfl
 
-theorem html_expression_def : rules .r_html_expression = ⟨.normal,
-    .choice (.choice (.rule .r_html_expression_triple_bracket_legacy) (.rule .r_html_expression_triple_bracket)) (.rule .r_amp_expression)⟩ := rfl
+theorem html_expression_nf : unfoldS rules keepSilent 8 (rules .r_html_expression).body =
+    .choice (.choice (.rule .r_html_expression_triple_bracket_legacy) (.rule .r_html_expression_triple_bracket)) (.rule .r_amp_expression) := rfl
 
 theorem lead_tilde_none (c : Char) (x : Str) (q : Nat) (hc : c ≠ '~') :
     E 10 .nonAtomic (.opt (.rule .r_leading_tilde_to_omit_whitespace)) ⟨q, c :: x⟩ (.ok ⟨q, c :: x⟩ []) := by
@@ -108,21 +109,20 @@ theorem html_name_tagAt (nm : Str) (h : IdentName nm) :
   have hD := Ev.seq_ok (F := nm.length + 67) hC ((skip_at '}' ('}' :: '}' :: tail) (by decide) (p + 3 + nm.length)).weaken (by omega))
     (Ev.str_ok (F := nm.length + 66) (s := ['}', '}', '}']) (st' := ⟨p + 3 + nm.length + 3, tail⟩) (by simp [matchStr]))
   have hleg := Ev.rule_ok (G := rules) (ws := ws) (atom := .nonAtomic) (r := Rule.r_html_expression_triple_bracket_legacy)
-    (F := nm.length + 68) (st := ⟨p, '{' :: '{' :: '{' :: c0 :: x⟩) (st' := ⟨p + 3 + nm.length + 3, tail⟩)
-    (by rw [legacy_def]; exact hD)
+    (F := nm.length + 67 + 1 + 8) (st := ⟨p, '{' :: '{' :: '{' :: c0 :: x⟩) (st' := ⟨p + 3 + nm.length + 3, tail⟩)
+    (E.of_nf (atom := .nonAtomic) .r_html_expression_triple_bracket_legacy legacy_nf hD)
   have hty : (rules .r_html_expression_triple_bracket_legacy).ty = .silent := rfl
   simp only [hty] at hleg
   have hhtml := Ev.rule_ok (G := rules) (ws := ws) (atom := .nonAtomic) (r := Rule.r_html_expression)
-    (F := nm.length + 71) (st := ⟨p, '{' :: '{' :: '{' :: c0 :: x⟩) (st' := ⟨p + 3 + nm.length + 3, tail⟩)
-    (by rw [html_expression_def]
-        show E _ .nonAtomic _ _ _
-        exact Ev.choice_left (b := .rule Rule.r_amp_expression) (Ev.choice_left (b := .rule Rule.r_html_expression_triple_bracket)
-          (by simpa using hleg)))
+    (F := nm.length + 67 + 1 + 8 + 1 + 1 + 1 + 8) (st := ⟨p, '{' :: '{' :: '{' :: c0 :: x⟩) (st' := ⟨p + 3 + nm.length + 3, tail⟩)
+    (E.of_nf (atom := .nonAtomic) .r_html_expression html_expression_nf
+      (Ev.choice_left (b := .rule Rule.r_amp_expression) (Ev.choice_left (b := .rule Rule.r_html_expression_triple_bracket)
+        (by simpa using hleg))))
   have hty2 : (rules .r_html_expression).ty = .normal := rfl
   simp only [hty2] at hhtml
   rw [templateAlt_eq, altsBefore_eq, hsrc]
   unfold alts4
-  have h3 := Ev.choice_right (F := nm.length + 90) (hpre.weaken (by omega)) (hhtml.weaken (by omega))
+  have h3 := Ev.choice_right (F := nm.length + 95) (hpre.weaken (by omega)) (hhtml.weaken (by omega))
   have := Ev.choice_left (b := .rule .r_partial_block) (Ev.choice_left (b := .rule .r_partial_expression)
     (Ev.choice_left (b := .rule .r_decorator_block) (Ev.choice_left (b := .rule .r_decorator_expression)
       (Ev.choice_left (b := .rule .r_hbs_comment_compact) (Ev.choice_left (b := .rule .r_hbs_comment)
@@ -161,20 +161,19 @@ theorem amp_name_tagAt (nm : Str) (h : IdentName nm) :
   have hEnd := Ev.seq_ok (F := nm.length + 64) hD ((skip_at '}' ('}' :: tail) (by decide) (p + 3 + nm.length)).weaken (by omega))
     (Ev.str_ok (F := nm.length + 63) (s := ['}', '}']) (st' := ⟨p + 3 + nm.length + 2, tail⟩) (by simp [matchStr]))
   have hamp := Ev.rule_ok (G := rules) (ws := ws) (atom := .nonAtomic) (r := Rule.r_amp_expression)
-    (F := nm.length + 65) (st := ⟨p, '{' :: '{' :: '&' :: c0 :: x⟩) (st' := ⟨p + 3 + nm.length + 2, tail⟩)
-    (by rw [amp_def]; exact hEnd)
+    (F := nm.length + 64 + 1 + 8) (st := ⟨p, '{' :: '{' :: '&' :: c0 :: x⟩) (st' := ⟨p + 3 + nm.length + 2, tail⟩)
+    (E.of_nf (atom := .nonAtomic) .r_amp_expression amp_nf hEnd)
   have hty : (rules .r_amp_expression).ty = .silent := rfl
   simp only [hty] at hamp
   have hhtml := Ev.rule_ok (G := rules) (ws := ws) (atom := .nonAtomic) (r := Rule.r_html_expression)
-    (F := nm.length + 81) (st := ⟨p, '{' :: '{' :: '&' :: c0 :: x⟩) (st' := ⟨p + 3 + nm.length + 2, tail⟩)
-    (by rw [html_expression_def]
-        show E _ .nonAtomic _ _ _
-        exact Ev.choice_right (htriple.weaken (by omega)) ((by simpa using hamp : E _ _ _ _ _).weaken (by omega)))
+    (F := nm.length + 80 + 1 + 8) (st := ⟨p, '{' :: '{' :: '&' :: c0 :: x⟩) (st' := ⟨p + 3 + nm.length + 2, tail⟩)
+    (E.of_nf (atom := .nonAtomic) .r_html_expression html_expression_nf
+      (Ev.choice_right (F := nm.length + 80) (htriple.weaken (by omega)) ((by simpa using hamp : E _ _ _ _ _).weaken (by omega))))
   have hty2 : (rules .r_html_expression).ty = .normal := rfl
   simp only [hty2] at hhtml
   rw [templateAlt_eq, altsBefore_eq, hsrc]
   unfold alts4
-  have h3 := Ev.choice_right (F := nm.length + 90) (hpre.weaken (by omega)) (hhtml.weaken (by omega))
+  have h3 := Ev.choice_right (F := nm.length + 95) (hpre.weaken (by omega)) (hhtml.weaken (by omega))
   have := Ev.choice_left (b := .rule .r_partial_block) (Ev.choice_left (b := .rule .r_partial_expression)
     (Ev.choice_left (b := .rule .r_decorator_block) (Ev.choice_left (b := .rule .r_decorator_expression)
       (Ev.choice_left (b := .rule .r_hbs_comment_compact) (Ev.choice_left (b := .rule .r_hbs_comment)
